@@ -135,6 +135,18 @@ def run_lextrace(sc, lcases, lruns, timeout=1800, tag="ltrace"):
     return {l["r"]: l for l in r.lines if "lt" in l}, r
 
 
+def run_lexaccount(sc, lcases, lruns, timeout=1800, tag="lacc"):
+    if not lruns:
+        r = TlcResult(); r.ok = True
+        return [], r
+    sd = write_ldata(sc, "spec-" + tag, lcases, lruns)
+    r = tlc(sc, "LexAccount", cfg="LexAccount.cfg", cwd=sd, timeout=timeout)
+    tlc_must(r, "LexAccount")
+    if r.violation or r.distinct != 2 * len(lruns):
+        raise Infra("LexAccount evaluated %d states for %d runs (%s)" % (r.distinct, len(lruns), r.violation))
+    return [l for l in r.lines if l.get("la") == "bad"], r
+
+
 def run_product(sc, lcases, jobs, timeout=1800, tag="lprod"):
     sd = write_ldata(sc, "spec-" + tag, lcases, [], jobs)
     r = tlc(sc, "LexProduct", cfg="LexProduct.cfg", cwd=sd, timeout=timeout)
